@@ -612,7 +612,20 @@ def g_canary(R, tier):
         sym.set_ctx(None)
 
 
-GROUPS = {"op_table": g_op_table, "assign_tuple_list": g_tuple_list, "assign_auto": g_assign_auto, "leaf_targets": g_leaf_targets,
+def g_declined_inplace(R, tier):
+    """x op= v where type(x).__iop__ returns NotImplemented: Python falls back to x op v
+    (Language Reference 3.3.8 / 7.2.1).  The emitted idiom `x.__iop__(v) if hasattr(x,
+    '__iop__') else x op v` has no place for that test; decided by witnesses."""
+    from suites.c06 import native_finding
+    pre = ("class U:\n    def __init__(self, v):\n        self.v = v\n    def __iadd__(self, o):\n        return NotImplemented\n"
+           "    def __add__(self, o):\n        return U(self.v + o)\nclass H:\n    pass\n")
+    for kind, body in (("name", "x = U(1)\nx += 2\nr = x.v\n"), ("attribute", "h = H()\nh.a = U(1)\nh.a += 2\nr = h.a.v\n"),
+                       ("subscript", "d = {'k': U(1)}\nd['k'] += 2\nr = d['k'].v\n")):
+        native_finding(R, f"pending_nodes.PendingAugAssign.get_result[{kind}]/an-in-place-method-that-returns-NotImplemented-falls-back-to-the-binary-operator",
+                       "the result of the in-place method is stored even when it is NotImplemented (Python then evaluates `x op v`)", pre + body)
+
+
+GROUPS = {"declined_inplace": g_declined_inplace, "op_table": g_op_table, "assign_tuple_list": g_tuple_list, "assign_auto": g_assign_auto, "leaf_targets": g_leaf_targets,
           "convert_slice": g_convert_slice, "get_result": g_get_result, "augassign": g_augassign, "canary": g_canary}
 
 
@@ -669,3 +682,6 @@ REPLAY = {"src": replay_src, "srcs": replay_srcs, "augop": replay_augop, "destru
 
 from suites import thorough as _th
 GROUPS["thorough:destructuring-programs"] = _th.bounded_from_replay("bounded/destructuring-programs", replay_destructure)
+from suites import progenum as _pg
+GROUPS["thorough:enum-assignments"] = _th.only_thorough(_pg.g_f1)
+GROUPS["thorough:enum-augmented-assignments"] = _th.only_thorough(_pg.g_f2)
